@@ -601,6 +601,9 @@ func (x *Exec) checkAccess(s *State, loc *Loc, write bool, in ssa.Instruction) {
 		x.emit(s, "owns", label+"_atomic_only", x.spec.Owns, "false", nil)
 		return
 	}
+	if ts.Confined[field] {
+		return // never shared: no discipline to check
+	}
 	if ts.Immutable[field] {
 		if write {
 			x.emit(s, "owns", label+"_immutable", x.spec.Owns, "false", nil)
